@@ -1,1 +1,246 @@
 // verification harness (compiled into ntpd/src/daemon/observer.rs under cfg(all(test, pendulum_project_ntpd_rs_verif)))
+//
+// Harness for spec/Framing.tla part 2 (C38, value fidelity): builds an ObservableState for every shape
+// [nsrc, nts, dur, nsrv, ctr, flt, ts, thr], sends it through the real write_json / read_json pair over an in-memory
+// stream (as the daemon and ntp-ctl / the metrics exporter do over the observation socket) and compares field by
+// field: integers, strings, enums, raw floats (bitwise) and timestamps equal; durations within 1e-9 relative + 2^-32 s.
+#![allow(clippy::all, dead_code)]
+
+use super::*;
+use crate::daemon::sockets::{read_json, write_json};
+use ntp_proto::{NtpDuration, NtpLeapIndicator, ObservableSourceTimedata, PollInterval};
+use serde_json::{Value, json};
+
+#[path = "/verif/harness/common/util.rs"]
+mod util;
+
+fn dur(class: &str, k: usize) -> NtpDuration {
+    let k = k as f64;
+    match class {
+        "zero" => NtpDuration::ZERO,
+        "small" => NtpDuration::from_seconds(1.5e-3 * (k + 1.0)),
+        "neg" => NtpDuration::from_seconds(-0.25 - 0.001 * k),
+        "large" => NtpDuration::from_seconds(1.0e6 + 0.123 + k),
+        "max" => NtpDuration::MAX,
+        c => panic!("unknown duration class {c}"),
+    }
+}
+
+fn flt(class: &str, k: usize) -> f64 {
+    match class {
+        "zero" => 0.0,
+        "subnormal" => 5e-324,
+        "ordinary" => 1.2345678901234567e-9 * (k as f64 + 1.0),
+        "huge" => 1.7e308,
+        "neg" => -3.5e-7 * (k as f64 + 1.0),
+        c => panic!("unknown float class {c}"),
+    }
+}
+
+fn ts(class: &str, k: usize) -> NtpTimestamp {
+    match class {
+        "zero" => NtpTimestamp::default(),
+        "mid" => NtpTimestamp::from_seconds_nanos_since_ntp_era(3_900_000_000 + k as u32, 123_456_789),
+        "max" => NtpTimestamp::from_seconds_nanos_since_ntp_era(u32::MAX, 999_999_999),
+        c => panic!("unknown timestamp class {c}"),
+    }
+}
+
+fn ctr(class: &str, k: u64) -> crate::daemon::server::Counter {
+    let n: u64 = match class {
+        "zero" => 0,
+        "one" => 1 + k,
+        "large" => (1u64 << 53) + 1 + k,
+        "u64max" => u64::MAX - k,
+        c => panic!("unknown counter class {c}"),
+    };
+    serde_json::from_value(json!(n)).unwrap()
+}
+
+fn build(s: &Value) -> ObservableState {
+    let d = s["dur"].as_str().unwrap();
+    let f = s["flt"].as_str().unwrap();
+    let t = s["ts"].as_str().unwrap();
+    let c = s["ctr"].as_str().unwrap();
+    let mut system = SystemSnapshot::default();
+    system.time_snapshot.precision = dur(if d == "max" { "small" } else { d }, 0);
+    system.time_snapshot.root_delay = dur(d, 1);
+    system.time_snapshot.root_variance_base_time = ts(t, 0);
+    system.time_snapshot.root_variance_base = flt(f, 0);
+    system.time_snapshot.root_variance_linear = flt(f, 1);
+    system.time_snapshot.root_variance_quadratic = flt(f, 2);
+    system.time_snapshot.root_variance_cubic = flt(f, 3);
+    system.time_snapshot.leap_indicator = [NtpLeapIndicator::NoWarning, NtpLeapIndicator::Leap61, NtpLeapIndicator::Leap59, NtpLeapIndicator::Unknown]
+        [s["nsrc"].as_u64().unwrap() as usize % 4];
+    system.time_snapshot.accumulated_steps = dur(d, 2);
+    system.time_snapshot.accumulated_steps_threshold = if s["thr"].as_bool().unwrap() { Some(dur(if d == "zero" { "small" } else { d }, 3)) } else { None };
+    system.ntp_snapshot.stratum = 1 + s["nsrv"].as_u64().unwrap() as u8;
+    let sources = (0..s["nsrc"].as_u64().unwrap() as usize)
+        .map(|k| ObservableSourceState {
+            timedata: ObservableSourceTimedata {
+                offset: dur(d, k),
+                uncertainty: dur(if d == "neg" { "small" } else { d }, k + 1),
+                delay: dur(d, k + 2),
+                remote_delay: dur(d, k + 3),
+                remote_uncertainty: dur(if d == "neg" { "small" } else { d }, k + 4),
+                last_update: ts(t, k),
+            },
+            unanswered_polls: [0, 7, u32::MAX][k % 3],
+            poll_interval: PollInterval::from_byte([4, 10, 17][k % 3]),
+            nts_cookies: match s["nts"].as_str().unwrap() {
+                "none" => None,
+                "zero" => Some(0),
+                _ => Some(8 - k),
+            },
+            name: ["pool.example.org", "", "tijd \u{2603} \"quoted\"\n"][k % 3].to_string(),
+            address: ["192.0.2.1:123", "[2001:db8::1]:123", "/run/chrony.sock"][k % 3].to_string(),
+            id: ClockId::new(),
+        })
+        .collect();
+    let servers = (0..s["nsrv"].as_u64().unwrap())
+        .map(|k| {
+            let mut stats = ServerStats::default();
+            stats.received_packets = ctr(c, k);
+            stats.accepted_packets = ctr(c, k + 1);
+            stats.denied_packets = ctr("zero", 0);
+            stats.ignored_packets = ctr(c, k + 2);
+            stats.rate_limited_packets = ctr("one", k);
+            stats.response_send_errors = ctr(c, k + 3);
+            stats.nts_received_packets = ctr(c, k + 4);
+            stats.nts_accepted_packets = ctr("one", 0);
+            stats.nts_denied_packets = ctr(c, k + 5);
+            stats.nts_rate_limited_packets = ctr("zero", 0);
+            stats.nts_nak_packets = ctr(c, k + 6);
+            ObservableServerState { address: if k == 0 { "0.0.0.0:123".parse().unwrap() } else { "[::1]:1123".parse().unwrap() }, stats }
+        })
+        .collect();
+    ObservableState { program: ProgramData::with_dynamics(flt(if f == "neg" || f == "huge" { "ordinary" } else { f }, 5) * 1e12, ts(t, 9)), system, sources, servers }
+}
+
+fn dclose(path: &str, a: NtpDuration, b: NtpDuration, out: &mut Vec<String>) {
+    let diff = (a - b).to_seconds().abs();
+    let tol = 1e-9 * a.to_seconds().abs() + 1.0 / 4294967296.0;
+    if !(diff <= tol * (1.0 + 1e-12)) {
+        out.push(format!("{path}: {} -> {} (diff {diff:e}, tolerance {tol:e})", a.to_seconds(), b.to_seconds()));
+    }
+}
+
+fn feq(path: &str, a: f64, b: f64, out: &mut Vec<String>) {
+    if a.to_bits() != b.to_bits() {
+        // "float-ulps=N": distance in units in the last place (same sign, finite), so that the driver can tell a
+        // last-digit parsing inaccuracy from a wrong value
+        let ulps = if a.is_finite() && b.is_finite() && (a < 0.0) == (b < 0.0) { (a.to_bits() as i128 - b.to_bits() as i128).abs() } else { i128::MAX };
+        out.push(format!("float-ulps={ulps} {path}: {a:e} -> {b:e}"));
+    }
+}
+
+fn eq<T: PartialEq + std::fmt::Debug>(path: &str, a: &T, b: &T, out: &mut Vec<String>) {
+    if a != b {
+        out.push(format!("{path}: {a:?} -> {b:?}"));
+    }
+}
+
+fn compare(a: &ObservableState, b: &ObservableState) -> Vec<String> {
+    let mut d = vec![];
+    eq("program.version", &a.program.version, &b.program.version, &mut d);
+    eq("program.build_commit", &a.program.build_commit, &b.program.build_commit, &mut d);
+    eq("program.build_commit_date", &a.program.build_commit_date, &b.program.build_commit_date, &mut d);
+    feq("program.uptime_seconds", a.program.uptime_seconds, b.program.uptime_seconds, &mut d);
+    eq("program.now", &a.program.now, &b.program.now, &mut d);
+    let (x, y) = (&a.system.time_snapshot, &b.system.time_snapshot);
+    dclose("system.precision", x.precision, y.precision, &mut d);
+    dclose("system.root_delay", x.root_delay, y.root_delay, &mut d);
+    eq("system.root_variance_base_time", &x.root_variance_base_time, &y.root_variance_base_time, &mut d);
+    feq("system.root_variance_base", x.root_variance_base, y.root_variance_base, &mut d);
+    feq("system.root_variance_linear", x.root_variance_linear, y.root_variance_linear, &mut d);
+    feq("system.root_variance_quadratic", x.root_variance_quadratic, y.root_variance_quadratic, &mut d);
+    feq("system.root_variance_cubic", x.root_variance_cubic, y.root_variance_cubic, &mut d);
+    eq("system.leap_indicator", &x.leap_indicator, &y.leap_indicator, &mut d);
+    dclose("system.accumulated_steps", x.accumulated_steps, y.accumulated_steps, &mut d);
+    match (x.accumulated_steps_threshold, y.accumulated_steps_threshold) {
+        (None, None) => {}
+        (Some(p), Some(q)) => dclose("system.accumulated_steps_threshold", p, q, &mut d),
+        (p, q) => d.push(format!("system.accumulated_steps_threshold: {p:?} -> {q:?}")),
+    }
+    eq("system.stratum", &a.system.ntp_snapshot.stratum, &b.system.ntp_snapshot.stratum, &mut d);
+    eq("system.reference_id", &a.system.ntp_snapshot.reference_id, &b.system.ntp_snapshot.reference_id, &mut d);
+    eq("sources.len", &a.sources.len(), &b.sources.len(), &mut d);
+    for (k, (s, t)) in a.sources.iter().zip(b.sources.iter()).enumerate() {
+        let p = format!("sources[{k}]");
+        dclose(&format!("{p}.offset"), s.timedata.offset, t.timedata.offset, &mut d);
+        dclose(&format!("{p}.uncertainty"), s.timedata.uncertainty, t.timedata.uncertainty, &mut d);
+        dclose(&format!("{p}.delay"), s.timedata.delay, t.timedata.delay, &mut d);
+        dclose(&format!("{p}.remote_delay"), s.timedata.remote_delay, t.timedata.remote_delay, &mut d);
+        dclose(&format!("{p}.remote_uncertainty"), s.timedata.remote_uncertainty, t.timedata.remote_uncertainty, &mut d);
+        eq(&format!("{p}.last_update"), &s.timedata.last_update, &t.timedata.last_update, &mut d);
+        eq(&format!("{p}.unanswered_polls"), &s.unanswered_polls, &t.unanswered_polls, &mut d);
+        eq(&format!("{p}.poll_interval"), &s.poll_interval, &t.poll_interval, &mut d);
+        eq(&format!("{p}.nts_cookies"), &s.nts_cookies, &t.nts_cookies, &mut d);
+        eq(&format!("{p}.name"), &s.name, &t.name, &mut d);
+        eq(&format!("{p}.address"), &s.address, &t.address, &mut d);
+        eq(&format!("{p}.id"), &s.id, &t.id, &mut d);
+    }
+    eq("servers.len", &a.servers.len(), &b.servers.len(), &mut d);
+    for (k, (s, t)) in a.servers.iter().zip(b.servers.iter()).enumerate() {
+        let p = format!("servers[{k}]");
+        eq(&format!("{p}.address"), &s.address, &t.address, &mut d);
+        let (u, v) = (&s.stats, &t.stats);
+        for (n, i, j) in [
+            ("received_packets", u.received_packets.get(), v.received_packets.get()),
+            ("accepted_packets", u.accepted_packets.get(), v.accepted_packets.get()),
+            ("denied_packets", u.denied_packets.get(), v.denied_packets.get()),
+            ("ignored_packets", u.ignored_packets.get(), v.ignored_packets.get()),
+            ("rate_limited_packets", u.rate_limited_packets.get(), v.rate_limited_packets.get()),
+            ("response_send_errors", u.response_send_errors.get(), v.response_send_errors.get()),
+            ("nts_received_packets", u.nts_received_packets.get(), v.nts_received_packets.get()),
+            ("nts_accepted_packets", u.nts_accepted_packets.get(), v.nts_accepted_packets.get()),
+            ("nts_denied_packets", u.nts_denied_packets.get(), v.nts_denied_packets.get()),
+            ("nts_rate_limited_packets", u.nts_rate_limited_packets.get(), v.nts_rate_limited_packets.get()),
+            ("nts_nak_packets", u.nts_nak_packets.get(), v.nts_nak_packets.get()),
+        ] {
+            eq(&format!("{p}.{n}"), &i, &j, &mut d);
+        }
+    }
+    d
+}
+
+fn roundtrip(s: &Value, rt: &tokio::runtime::Runtime) -> Result<(Vec<String>, usize), String> {
+    let state = build(s);
+    let mut wire: Vec<u8> = vec![];
+    rt.block_on(write_json(&mut wire, &state)).map_err(|e| format!("write_json: {e}"))?;
+    let n = wire.len();
+    let mut stream = crate::daemon::sockets::verif_hook::CountingStream { data: wire, pos: 0, chunk: 4096, reads: vec![] };
+    let mut buffer = vec![];
+    let back: ObservableState = rt.block_on(read_json(&mut stream, &mut buffer)).map_err(|e| format!("read_json: {e}"))?;
+    if stream.pos != n {
+        return Err(format!("read_json consumed {} of {} bytes", stream.pos, n));
+    }
+    Ok((compare(&state, &back), n))
+}
+
+fn replay(job: &Value) {
+    let rows = util::read_ndjson(job["input"].as_str().unwrap());
+    let mut out = util::NdjsonOut::create(job["output"].as_str().unwrap());
+    let rt = tokio::runtime::Builder::new_current_thread().enable_all().build().unwrap();
+    for r in rows {
+        let s = &r["act"]["c"];
+        match util::catch(|| roundtrip(s, &rt)) {
+            Ok(Ok((diffs, n))) => {
+                let fields: Vec<&str> = if diffs.is_empty() { vec![] } else { vec!["out.equal"] };
+                out.put(&json!({"id": r["id"], "fields": fields, "observed": {"equal": diffs.is_empty(), "differences": diffs, "bytes": n}, "panic": null}));
+            }
+            Ok(Err(e)) => out.put(&json!({"id": r["id"], "fields": ["out.equal"], "observed": {"equal": false, "error": e}, "panic": null})),
+            Err(p) => out.put(&json!({"id": r["id"], "fields": ["panic"], "observed": {}, "panic": p})),
+        }
+    }
+    out.finish();
+}
+
+#[test]
+fn verif_observer() {
+    let job = util::job();
+    match job["mode"].as_str().unwrap() {
+        "replay" => replay(&job),
+        m => panic!("unknown mode {m}"),
+    }
+}
